@@ -308,7 +308,11 @@ def arith(op, a, b, interp=None):
   if isreal and interp is not None and interp.float_uf and op in ("*", "/"):
     if op == "*" and not z3.is_rational_value(za) and not z3.is_rational_value(zb):
       # commutative: order operands canonically so that a*b and b*a are the same term
-      x, y = (za, zb) if za.get_id() <= zb.get_id() else (zb, za)
+      # structural hash (stable across term re-creation), not the AST id
+      ha, hb = za.hash(), zb.hash()
+      if ha == hb and not z3.eq(za, zb):
+        ha, hb = za.sexpr(), zb.sexpr()
+      x, y = (za, zb) if ha <= hb else (zb, za)
       return z3.Function("fmul", R, R, R)(x, y)
     if op == "/" and not z3.is_rational_value(zb):
       return z3.Function("fdiv", R, R, R)(za, zb)
